@@ -155,6 +155,8 @@ class Reader:
                     )
                 self.meta["fileTimeSecs"] = ftsec
         else:
+            # the size seen by the constructor is stale if the file was still being written (open=False, opened later)
+            self.nbytes = self.file_bin.stat().st_size
             if self.nc * self.ns * self.dtype.itemsize != self.nbytes:
                 # only complete sample frames count: an interrupted write leaves a partial trailing frame
                 ftsec = (
